@@ -187,59 +187,90 @@ pub mod sync {
             }
         }
 
+        /// A readers-writer lock on loom's `Mutex` and `Condvar` instead of loom's `RwLock`. std does
+        /// not promise a priority policy ("a writer which is waiting ... might or might not block
+        /// concurrent calls to read"), and loom's `RwLock` never lets a waiting writer block a reader,
+        /// so a thread that takes the shared lock twice could not be seen to deadlock against a
+        /// queued writer. This one prefers writers: `read` waits while a writer holds the lock *or
+        /// waits for it*. The data behaviours are the same under both policies (a reader that is held
+        /// back behind a writer behaves like a reader that arrived after it); the writer-preferring
+        /// policy adds exactly the blocking std documents as possible. `try_read` / `try_write` fail
+        /// whenever the lock state forbids the access, which other threads observe at any of their
+        /// own synchronisation points.
         pub struct RwLock<T> {
-            inner: loom::sync::RwLock<T>,
-            probe: AtomicUsize,
+            state: loom::sync::Mutex<RwState>,
+            cv: loom::sync::Condvar,
+            data: std::cell::UnsafeCell<T>,
         }
 
+        struct RwState {
+            readers: usize,
+            writer: bool,
+            writers_waiting: usize,
+        }
+
+        unsafe impl<T: Send> Send for RwLock<T> {}
+        unsafe impl<T: Send + Sync> Sync for RwLock<T> {}
+
         pub struct RwLockReadGuard<'a, T> {
-            inner: Option<loom::sync::RwLockReadGuard<'a, T>>,
-            probe: &'a AtomicUsize,
+            lock: &'a RwLock<T>,
         }
 
         pub struct RwLockWriteGuard<'a, T> {
-            inner: Option<loom::sync::RwLockWriteGuard<'a, T>>,
-            probe: &'a AtomicUsize,
+            lock: &'a RwLock<T>,
         }
 
         impl<T> RwLock<T> {
             pub fn new(t: T) -> Self {
                 RwLock {
-                    inner: loom::sync::RwLock::new(t),
-                    probe: AtomicUsize::new(0),
+                    state: loom::sync::Mutex::new(RwState {
+                        readers: 0,
+                        writer: false,
+                        writers_waiting: 0,
+                    }),
+                    cv: loom::sync::Condvar::new(),
+                    data: std::cell::UnsafeCell::new(t),
                 }
             }
             pub fn read(&self) -> LockResult<RwLockReadGuard<'_, T>> {
-                map_lock(self.inner.read(), |g| RwLockReadGuard {
-                    inner: Some(g),
-                    probe: &self.probe,
-                })
+                let mut s = self.state.lock().unwrap();
+                while s.writer || s.writers_waiting > 0 {
+                    s = self.cv.wait(s).unwrap();
+                }
+                s.readers += 1;
+                Ok(RwLockReadGuard { lock: self })
             }
             pub fn write(&self) -> LockResult<RwLockWriteGuard<'_, T>> {
-                map_lock(self.inner.write(), |g| RwLockWriteGuard {
-                    inner: Some(g),
-                    probe: &self.probe,
-                })
+                let mut s = self.state.lock().unwrap();
+                s.writers_waiting += 1;
+                while s.writer || s.readers > 0 {
+                    s = self.cv.wait(s).unwrap();
+                }
+                s.writers_waiting -= 1;
+                s.writer = true;
+                Ok(RwLockWriteGuard { lock: self })
             }
             pub fn try_read(&self) -> TryLockResult<RwLockReadGuard<'_, T>> {
-                self.probe.fetch_add(1, Relaxed);
-                map_try(self.inner.try_read(), |g| RwLockReadGuard {
-                    inner: Some(g),
-                    probe: &self.probe,
-                })
+                let mut s = self.state.lock().unwrap();
+                if s.writer || s.writers_waiting > 0 {
+                    return Err(TryLockError::WouldBlock);
+                }
+                s.readers += 1;
+                Ok(RwLockReadGuard { lock: self })
             }
             pub fn try_write(&self) -> TryLockResult<RwLockWriteGuard<'_, T>> {
-                self.probe.fetch_add(1, Relaxed);
-                map_try(self.inner.try_write(), |g| RwLockWriteGuard {
-                    inner: Some(g),
-                    probe: &self.probe,
-                })
+                let mut s = self.state.lock().unwrap();
+                if s.writer || s.readers > 0 {
+                    return Err(TryLockError::WouldBlock);
+                }
+                s.writer = true;
+                Ok(RwLockWriteGuard { lock: self })
             }
             pub fn into_inner(self) -> LockResult<T> {
-                self.inner.into_inner()
+                Ok(self.data.into_inner())
             }
             pub fn get_mut(&mut self) -> LockResult<&mut T> {
-                self.inner.get_mut()
+                Ok(self.data.get_mut())
             }
             pub fn is_poisoned(&self) -> bool {
                 false
@@ -268,7 +299,8 @@ pub mod sync {
         impl<T> Deref for RwLockReadGuard<'_, T> {
             type Target = T;
             fn deref(&self) -> &T {
-                self.inner.as_ref().unwrap()
+                // shared access: `readers > 0` excludes a writer
+                unsafe { &*self.lock.data.get() }
             }
         }
 
@@ -276,8 +308,13 @@ pub mod sync {
             fn drop(&mut self) {
                 // (not while unwinding: loom reports a deadlock by panicking, and a scheduling point
                 // inside that unwinding would abort the process)
-                if self.inner.is_some() && !std::thread::panicking() {
-                    self.probe.load(Relaxed);
+                if std::thread::panicking() {
+                    return;
+                }
+                let mut s = self.lock.state.lock().unwrap();
+                s.readers -= 1;
+                if s.readers == 0 {
+                    self.lock.cv.notify_all();
                 }
             }
         }
@@ -285,23 +322,25 @@ pub mod sync {
         impl<T> Deref for RwLockWriteGuard<'_, T> {
             type Target = T;
             fn deref(&self) -> &T {
-                self.inner.as_ref().unwrap()
+                unsafe { &*self.lock.data.get() }
             }
         }
 
         impl<T> DerefMut for RwLockWriteGuard<'_, T> {
             fn deref_mut(&mut self) -> &mut T {
-                self.inner.as_mut().unwrap()
+                // exclusive access: `writer` excludes readers and other writers
+                unsafe { &mut *self.lock.data.get() }
             }
         }
 
         impl<T> Drop for RwLockWriteGuard<'_, T> {
             fn drop(&mut self) {
-                // (not while unwinding: loom reports a deadlock by panicking, and a scheduling point
-                // inside that unwinding would abort the process)
-                if self.inner.is_some() && !std::thread::panicking() {
-                    self.probe.load(Relaxed);
+                if std::thread::panicking() {
+                    return;
                 }
+                let mut s = self.lock.state.lock().unwrap();
+                s.writer = false;
+                self.lock.cv.notify_all();
             }
         }
     }
